@@ -91,7 +91,7 @@ def _progress_state(p):
                 progress = "timer re-armed"
             if "call_soon" in t and callback_is(ev.node, "_timeout_mechanism"):
                 progress = "timeout scheduled"
-        if ev.kind == "catch" and "InvalidStateError" in ctx_exc_name(ev.data):
+        if ev.kind in ("catch", "raise") and "InvalidStateError" in ctx_exc_name(ev.data):
             progress = "future already done"
         if ev.kind == "test" and isinstance(ev.node, ast.Call) and "fut_done" in t and ev.data is True:
             progress = "future already done"
